@@ -468,19 +468,59 @@ func c08BlockedCallback(w *fw.Worker, i int, r *fw.Rand) {
 			}
 			w.Count("blocked_callback_reports", 1)
 		case <-time.After(10 * time.Second):
-			p1, dump := monitorParkedInSend()
-			g1 := dialsGoroutines([]string{").monitor("})
-			time.Sleep(300 * time.Millisecond)
-			g2 := dialsGoroutines([]string{").monitor("})
-			if p1 || (len(g1) > 0 && len(g2) > 0 && strings.Contains(g2[0], "chan send")) {
-				if dump == "" && len(g2) > 0 {
-					dump = g2[0]
-				}
-				w.Violation(i, "blocked-callback-stops-installs", fmt.Sprintf("blocking report %d did not return while OnNewConfig is parked: the monitor is blocked", k), map[string]any{"case": desc, "goroutine": fw.TrimStack(dump)})
-			} else {
-				w.Inconclusive(i, "report did not return while callback blocked; monitor not provably blocked")
-			}
+			stuckVerdict(w, i, fmt.Sprintf("blocking report %d while OnNewConfig is parked", k), desc)
 			fail = true
+		}
+		// once the 64-slot queue is full: rejected updates and source errors must not block the monitor either,
+		// and API calls that cannot be queued must give up when their own context ends
+		if !fail && k >= 80 && k%20 == 0 {
+			bad := e.RandLayer(r, 100, 0)
+			bd := make(chan error, 1)
+			go func() { bd <- e.Srcs[k%2].Report(ctx, bad, true) }()
+			select {
+			case berr := <-bd:
+				if berr == nil {
+					w.Violation(i, "invalid-update-accepted-while-callback-blocked", "an update failing Verify returned nil", desc)
+					fail = true
+				}
+			case <-time.After(10 * time.Second):
+				stuckVerdict(w, i, "rejected blocking report while OnNewConfig is parked and the callback queue is full", desc)
+				fail = true
+			}
+			if !fail {
+				// clear the rejected value out of that source's slot again (a rejected value lingers)
+				fixl := e.NewLayer()
+				fixl.Set[0], fixl.Set[1] = true, true
+				last = fixl
+				if ferr := e.Srcs[k%2].Report(ctx, fixl, true); ferr != nil {
+					w.Violation(i, "install-failed-while-callback-blocked", fmt.Sprintf("valid report after a rejected one: %v", ferr), desc)
+					fail = true
+				}
+			}
+			if !fail {
+				e.Srcs[0].WA().ReportError(ctx, errSrcReported)
+				sctx, scancel := context.WithTimeout(ctx, 20*time.Millisecond)
+				rdone := make(chan bool, 1)
+				go func() {
+					_, tok := e.D.ViewVersion()
+					rdone <- e.D.RegisterCallback(sctx, tok, func(context.Context, *conc.Cfg, *conc.Cfg) {}) == nil
+				}()
+				select {
+				case <-rdone:
+					w.Count("late_calls_checked", 1)
+				case <-time.After(10 * time.Second):
+					g1 := dialsGoroutines(c08APIFrames)
+					time.Sleep(300 * time.Millisecond)
+					g2 := dialsGoroutines(c08APIFrames)
+					if len(g1) > 0 && len(g2) > 0 {
+						w.Violation(i, "api-call-blocked-past-its-context:queue-full", "RegisterCallback with a 20ms context is still blocked 10s later (callback queue full behind a parked callback)", map[string]any{"case": desc, "goroutine": fw.TrimStack(g2[0])})
+					} else {
+						w.Inconclusive(i, "RegisterCallback did not return; not provably blocked in dials")
+					}
+					fail = true
+				}
+				scancel()
+			}
 		}
 	}
 	if !fail {
